@@ -425,7 +425,7 @@ Qed.
 Theorem hstep_GInv st op st' : WF (hs st) -> TInv st -> GInv st -> hstep st op = Ok st' -> GInv st'.
 Proof.
   intros W I G H. pose proof I as [T N1 N2 OK].
-  destruct op as [h p args0 keeps|h args keeps|h c|l t|l s strong|l c|l|l|h h'|h| |]; cbn [hstep] in H.
+  destruct op as [h p args0 keeps|h args keeps|h c|l t|l s strong|l c strong|l|l|h h'|h| |]; cbn [hstep] in H.
   - (* HDef *)
     destruct (lookups (slots st) args0) as [sl0|] eqn:L0; [|injection H as <-; exact G].
     destruct (lookups (slots st) keeps) as [kl|] eqn:Lk; [|injection H as <-; exact G].
@@ -507,9 +507,9 @@ Proof.
     match type of H with context [run_ops st ?o ?n] => destruct (run_ops st o n) as [st1| |] eqn:R; try discriminate end.
     injection H as <-.
     assert (P : forall op, In op (inst_ops t_listen_c [sc] (length (ext (hs st)))
-                                  ++ [GClone (length (ext (hs st)) + 4)]) -> plain op = true).
+                                  ++ (if strong then [GClone (length (ext (hs st)) + 4)] else [])) -> plain op = true).
     { intros op Ho. apply in_app_or in Ho as [Ho|Ho]; [apply (plain_inst_ops _ _ _ _ Ho)|].
-      destruct Ho as [<-|[]]; reflexivity. }
+      destruct strong; [destruct Ho as [<-|[]]; reflexivity|destruct Ho]. }
     pose proof (GInv_plain _ _ _ _ R P G) as G1. pose proof (run_ops_ext _ _ _ _ R) as (E & S1 & L1).
     assert (Lk : lookups (slots st) [c] = Some [sc]) by (cbn [lookups]; rewrite L; reflexivity).
     destruct (inst_ext t_listen_c [sc] (ext (hs st)) (ok_nodup _ _ t_listen_c_ok) (ok_range _ _ t_listen_c_ok)) as (Len & _).
